@@ -99,7 +99,9 @@ def _sorted(run, P):
     # the seeding and expansion of the stack must go through sorted()
     for x in ast.walk(f.node):
         if isinstance(x, ast.Call) and isinstance(x.func, ast.Attribute) \
-                and x.func.attr == "extend" and dotted(x.func.value) == "stack":
+                and x.func.attr == "extend" and isinstance(x.func.value, ast.Name) \
+                and any(isinstance(w_, ast.While) and dotted(w_.test) == x.func.value.id
+                        for w_ in ast.walk(f.node)):
             a = x.args[0]
             ok = isinstance(a, ast.Call) and dotted(a.func) == "sorted"
             n += 1
@@ -111,86 +113,114 @@ def _sorted(run, P):
 
 
 def _topo_wrap(run, P):
+    from .util import find, first, has, nodoc
     f = P.func(f"{MOD}.create_ast_from_phase")
     g = CFG(f.node)
-    whiles = [n for n in ast.walk(f.node) if isinstance(n, ast.While)
-              and dotted(n.test) == "stack"]
-    if len(whiles) != 1:
-        raise AnalysisError("create_ast_from_phase: 'while stack:' not found")
-    w = whiles[0]
-    apps = [n for n in g.nodes if n.kind == "stmt" and any(
-        isinstance(x, ast.Call) and dotted(x.func) == "topological_order.append"
-        for x in walk_fragment(n.ast))]
+    # the work-list loop: `while <stack>:` whose body starts with `<node> = <stack>[-1]`
+    w = None
+    env = None
+    for n in ast.walk(f.node):
+        if isinstance(n, ast.While) and isinstance(n.test, ast.Name):
+            nd, b = first("V_node = V_stack[-1]", n, {"V_stack": n.test.id})
+            if nd is not None:
+                w, env = n, b
+    if w is None:
+        raise AnalysisError("create_ast_from_phase: work-list loop not found")
+    stack, node = env["V_stack"], env["V_node"]
+    # the order list: appended with the node inside the loop
+    apps = find("V_order.append(V_node)", w, env)
     if len(apps) != 1:
-        raise AnalysisError("create_ast_from_phase: one topological_order.append expected")
-    app = apps[0]
-    # enclosing tests
-    encl = []
+        raise AnalysisError("create_ast_from_phase: one <order>.append(<node>) expected")
+    app_call, env = apps[0]
+    order = env["V_order"]
+    app_stmt = None
+    for nn in g.nodes:
+        if nn.kind == "stmt" and any(x is app_call for x in walk_fragment(nn.ast)):
+            app_stmt = nn
+    # sets: first-visit branch adds the node to two sets; the finished test uses both
+    tests_enclosing = []
     for n in ast.walk(w):
-        if isinstance(n, ast.If) and any(x is app.ast for b in n.body for x in ast.walk(b)):
-            encl.append(norm(n.test))
-    ok = "statement in visited" in encl and "statement in visiting" in encl
-    run.ob("C05.topo", f, app.ast, ok,
-           construct=f"topological_order.append(statement) under {encl}",
+        if isinstance(n, ast.If) and any(x is app_call for b_ in n.body for x in ast.walk(b_)):
+            tests_enclosing.append(n.test)
+    memberships = []
+    for t in tests_enclosing:
+        m_ = first("V_node in V_set", t, {"V_node": node})
+        if m_[0] is not None and isinstance(t, ast.Compare):
+            memberships.append(m_[1]["V_set"])
+    ok = len(memberships) == 2 and len(set(memberships)) == 2
+    run.ob("C05.topo", f, app_stmt.ast if app_stmt else w, ok,
+           construct=f"{order}.append({node}) only when {node} is in both "
+                     f"{sorted(memberships)} (popped in the finished state)",
            why="an id appended when first seen (before its dependencies were "
                "expanded) precedes its dependencies in the emitted code")
-    rem = [n for n in g.nodes if n.kind == "stmt" and any(
-        isinstance(x, ast.Call) and dotted(x.func) in ("visiting.remove", "visiting.discard")
-        for x in walk_fragment(n.ast))]
-    ok = len(rem) == 1 and not g.always_preceded([app], rem) is False or (
-        len(rem) == 1 and _same_block(w, rem[0].ast, app.ast))
-    run.ob("C05.topo", f, rem[0].ast if rem else w, len(rem) == 1 and _same_block(w, rem[0].ast, app.ast),
-           construct="visiting.remove(statement) paired with the append",
+    visited = visiting = None
+    if ok:
+        # the outer test set is 'visited', the inner one 'visiting'
+        outer_if = [n for n in w.body if isinstance(n, ast.If)]
+        if outer_if:
+            mo = first("V_node in V_set", outer_if[0].test, {"V_node": node})
+            if mo[0] is not None:
+                visited = mo[1]["V_set"]
+                visiting = [x for x in memberships if x != visited]
+                visiting = visiting[0] if visiting else None
+    if visited is None or visiting is None:
+        raise AnalysisError("create_ast_from_phase: visited / visiting sets not identified")
+    rem = find(f"{visiting}.remove(V_node)", w, {"V_node": node}) + \
+        find(f"{visiting}.discard(V_node)", w, {"V_node": node})
+    paired = False
+    if len(rem) == 1 and app_stmt is not None:
+        for nn in g.nodes:
+            if nn.kind == "stmt" and any(x is rem[0][0] for x in walk_fragment(nn.ast)):
+                paired = _same_block(w, nn.ast, app_stmt.ast)
+    run.ob("C05.topo", f, rem[0][0] if rem else w, paired,
+           construct=f"{visiting}.remove({node}) paired with the append",
            why="left in 'visiting', the id is appended again each time it is popped")
-    # expansion branch
+    outer_if = [n for n in w.body if isinstance(n, ast.If)][0]
+    exp = outer_if.orelse
+    src = [ast.unparse(s) for s in exp]
     exp_ok = False
-    for n in ast.walk(w):
-        if isinstance(n, ast.If) and norm(n.test) == "statement in visited" and n.orelse:
-            src = [ast.unparse(s) for s in n.orelse]
-            try:
-                i1 = src.index("visited.add(statement)")
-                i2 = src.index("visiting.add(statement)")
-                i3 = [i for i, s in enumerate(src) if s.startswith("stack.extend(")][0]
-                exp_ok = i1 < i3 and i2 < i3 and \
-                    "statement_map[statement].depends_on" in src[i3]
-            except (ValueError, IndexError):
-                exp_ok = False
+    try:
+        i1 = src.index(f"{visited}.add({node})")
+        i2 = src.index(f"{visiting}.add({node})")
+        i3 = [i for i, s_ in enumerate(src) if s_.startswith(f"{stack}.extend(")][0]
+        exp_ok = i1 < i3 and i2 < i3 and has(
+            f"{stack}.extend(sorted(V_map[{node}].depends_on))", exp[i3])
+    except (ValueError, IndexError):
+        exp_ok = False
     run.ob("C05.topo", f, w, exp_ok,
-           construct="first visit: mark visited and visiting, then push the dependencies",
+           construct="first visit: mark visited and visiting, then push the sorted dependencies",
            why="dependencies must be expanded exactly once, above the node on the stack")
-    # pop in the finished branch happens unconditionally
-    pop_ok = False
-    for n in ast.walk(w):
-        if isinstance(n, ast.If) and norm(n.test) == "statement in visited":
-            pop_ok = any(ast.unparse(s) == "stack.pop()" for s in n.body)
+    pop_ok = any(ast.unparse(s_) == f"{stack}.pop()" for s_ in outer_if.body)
     run.ob("C05.topo", f, w, pop_ok,
            construct="a visited id is popped on every path",
            why="termination")
     # wrap loop
-    loops = [n for n in f.node.body if isinstance(n, ast.For)
-             and dotted(n.iter) == "topological_order"]
+    loops = [n for n in f.node.body if isinstance(n, ast.For) and dotted(n.iter) == order]
     if len(loops) != 1:
-        raise AnalysisError("create_ast_from_phase: loop over topological_order not found")
+        raise AnalysisError("create_ast_from_phase: loop over the topological order not found")
     lp = loops[0]
     skips = [n for n in ast.walk(lp) if isinstance(n, (ast.Continue, ast.Break))]
     ok = True
-    for s in skips:
+    for s_ in skips:
         par = None
         for n in ast.walk(lp):
-            if isinstance(n, ast.If) and any(b is s for b in n.body):
+            if isinstance(n, ast.If) and any(b_ is s_ for b_ in n.body):
                 par = n
-        ok = ok and par is not None and norm(par.test) == "isinstance(statement, Nop)"
+        ok = ok and par is not None and has("isinstance(V_s, Nop)", par.test) \
+            and isinstance(par.test, ast.Call)
     run.ob("C05.wrap", f, skips[0] if skips else lp, ok and len(skips) <= 1,
-           construct="the only skip is 'if isinstance(statement, Nop): continue'",
+           construct="the only skip is 'if isinstance(<statement>, Nop): continue'",
            why="any other skip drops a statement from the generated code")
     last = lp.body[-1]
-    ok = ast.unparse(last) == "main_block.append(loop_to_ast_node(statement))" \
-        and any(ast.unparse(s) == "statement = statement_map[top_order_id]" for s in lp.body)
+    m_ = first("V_blk.append(loop_to_ast_node(V_s))", last)
+    ok = m_[0] is not None and isinstance(lp.target, ast.Name) and has(
+        f"V_s = V_map[{lp.target.id}]", lp, {"V_s": m_[1]["V_s"]} if m_[1] else None)
     run.ob("C05.wrap", f, last, ok,
            construct=norm(last),
            why="each ordered statement is wrapped (loops, guard) and appended once, in order")
-    rets = [s for s in f.node.body if isinstance(s, ast.Return)]
-    ok = len(rets) == 1 and norm(rets[0].value) == "simplify_ast(Block(*main_block))"
+    rets = [s_ for s_ in f.node.body if isinstance(s_, ast.Return)]
+    ok = len(rets) == 1 and m_[1] is not None and has(
+        "simplify_ast(Block(*V_blk))", rets[0], {"V_blk": m_[1]["V_blk"]})
     run.ob("C05.wrap", f, rets[0] if rets else f.node, ok,
            construct=norm(rets[0]) if rets else "?",
            why="children in traversal order")
@@ -353,7 +383,8 @@ def _walker(run, P):
            construct=f"branches for {sorted(branches)}; missing {missing}",
            why="a node class without a branch raises 'Unrecognized node type'")
     la = P.func("dagrt.codegen.codegen_base.StructuredCodeGenerator.lower_ast")
-    src = [ast.unparse(s) for s in la.node.body]
+    from .util import src_of
+    src = src_of(la.node.body)
     run.ob("C05.walker", la, la.node, src == ["self.lower_node(ast)", "self.emit_return()"],
            construct=f"lower_ast: {src}",
            why="the phase body is followed by the return/exit emission")
